@@ -244,6 +244,8 @@ type Plan struct {
 	CoRelease string      `json:"coRelease,omitempty"` // "" | "sched" | "inner" (race-detector runs)
 	Expect    string      `json:"expect,omitempty"` // violation signature this replay file reproduces
 	ShareCfg  bool        `json:"shareCfg,omitempty"`
+	Render    *RenderSpec `json:"render,omitempty"` // C05
+	Net       *NetSpec    `json:"net,omitempty"`    // C19/C17/C20b
 }
 
 func (p *Plan) Clone() *Plan {
